@@ -28,10 +28,15 @@ META = {
             'sum of the placements on that (provider, class), per-class totals = requested totals; provider summaries '
             'cover every named provider and equal the table-derived values.  On the real service every returned request '
             'is re-computed from the query, PUT unchanged for a new consumer (204 required) and the summaries are '
-            're-derived from the tables, at every microversion boundary from 1.10.',
+            're-derived from the tables, at every microversion boundary from 1.10.  Props/C02Merge: the merge stage of the '
+            'code itself (Model/Merge.lean follows _merge_candidates / _consolidate_allocation_requests with Python\'s shared '
+            'mutable resource objects; the copy rule is translated from copy_arr_if_needed): consolidation modifies no shared '
+            'object and yields per (provider, class) the SUM of the placements, for every store and combination; the rule as '
+            'it was before the fix: commit is refuted on a concrete store (3 VCPU for 2 requested).',
     'level_note': 'trusted: Lean kernel; acceptance by the real PUT is observed for every returned request of the runs, the '
                   'Lean acceptance theorem is about the model of PUT /allocations (tied to the code by the C01 histories).',
-    'technique': 'Lean 4 proof over the candidate specification + re-PUT / re-derivation monitors on the real service',
+    'technique': 'Lean 4 proof over the candidate specification and over the model of the merge stage (generated copy rule) + '
+                 're-PUT / re-derivation monitors on the real service',
     'design_ref': 'DESIGN.md section 5, C02',
 }
 
@@ -268,14 +273,14 @@ def case(args):
                                    'expected': 'every returned request places exactly what was asked, is accepted (204) '
                                                'when PUT for a new consumer, summaries equal the tables',
                                    'observed': {'problem': p['sig'], 'detail': p['detail'], 'request': p.get('request')}}})
-    except Exception:
+    except BaseException:      # incl. an escaped RequestHang: a dead pool worker would hang the check
         out['error'] = traceback.format_exc()
     return out
 
 
 def run(chk):
     if not getattr(chk, 'no_lean', False):
-        chk.lean_stage(META['lean_module'], exe=True)
+        chk.lean_stage([META['lean_module'], 'Placement.Props.C02Merge'], exe=True)
     n_states, nq = (1500, 4) if chk.tier == 'quick' else (30000, 4)
     procs = min(16, os.cpu_count() or 4)
     ctx = mp.get_context('fork')
